@@ -1060,6 +1060,22 @@ fn c02(t: &[&str], out: &str) -> R {
         }
         return Ok(true);
     }
+    if matches!(t[0], "sop" | "esop" | "soes") && t[1] == "tolut" {
+        let n = us(t[2]);
+        let o: Vec<&str> = out.split_whitespace().collect();
+        if o.len() != 2 || o[0] != "ok" {
+            return Err(format!("conversion to Lut: `{}`", out));
+        }
+        let r = parse_tab(o[1]).ok_or("conversion to Lut: unreadable table")?;
+        if r.n != n || !r.wf() {
+            return Err(format!("Lut::from({}) is malformed: {} (bits beyond 2^n or wrong block count)", t[0], o[1]));
+        }
+        return match t[0] {
+            "sop" => c14(t, out),
+            "esop" => c15(t, out),
+            _ => c13(t, out),
+        };
+    }
     if t[0] == "itera" {
         let n = us(t[2]);
         for tok in out.split_whitespace() {
@@ -1135,6 +1151,19 @@ fn c12(t: &[&str], out: &str) -> R {
         return Ok(false);
     }
     match t[1] {
+        "alla" => {
+            // the adaptor against the items that plain `next()` yields
+            let mut all: Vec<volute::sop::Cube> = Vec::new();
+            let mut it = volute::sop::Cube::all(us(t[2]));
+            while let Some(x) = it.next() {
+                all.push(x);
+            }
+            let want = crate::implrun::alla_expected(&all, us(t[3]), t[4], us(t[5]), &|c| show_cube(c)).ok_or("unknown adaptor")?;
+            if out != want {
+                return Err(format!("Cube::all({}).{}: expected `{}`, implementation says `{}`", t[2], t[4], want, out));
+            }
+            Ok(true)
+        }
         "cmp" => {
             let (a, b) = (parse_raw_cube(t[2]).unwrap(), parse_raw_cube(t[3]).unwrap());
             if a.0 & a.1 != 0 || b.0 & b.1 != 0 {
@@ -1355,6 +1384,18 @@ fn c13(t: &[&str], out: &str) -> R {
         return fctor(t, out);
     }
     match (t[0], t[1]) {
+        ("ecube", "alla") => {
+            let mut all: Vec<volute::sop::Ecube> = Vec::new();
+            let mut it = volute::sop::Ecube::all(us(t[2]));
+            while let Some(x) = it.next() {
+                all.push(x);
+            }
+            let want = crate::implrun::alla_expected(&all, us(t[3]), t[4], us(t[5]), &|c| show_ecube(c)).ok_or("unknown adaptor")?;
+            if out != want {
+                return Err(format!("Ecube::all({}).{}: expected `{}`, implementation says `{}`", t[2], t[4], want, out));
+            }
+            Ok(true)
+        }
         ("ecube", "value") => {
             let (v, x) = parse_raw_ecube(t[2]);
             let want = ecube_val(v, x, hexu(t[3]) as u32);
